@@ -190,8 +190,8 @@ def probe_driver_reuse(inp: Dict[str, Any]) -> Dict[str, Any]:
             out = {"molid": [0, 1], "prefix": os.path.join(d, tag), "print every": 0, "checkpoint every": 0, "xyz": 0, "h5": {"data": 1, "velocities": 1, "coordinates": 1}}
             return MD.Molecular_Dynamics_Basic(seqm_parameters=sp, timestep=inp["dt"], Temp=300.0, output=out)
         A, B = inp["first"], inp["second"]
+        molA, _ = system(A)     # (the package wants a Molecule before any driver: it fills the element list of the settings)
         md = driver("reused")
-        molA, _ = system(A)
         with contextlib.redirect_stdout(io.StringIO()):
             md.run(molA, inp["steps"], seed=5)
             molB, sB = system(B)
